@@ -22,6 +22,8 @@ def spec(tier):
     # two concurrent write-outs (same or different request ticks, same or different end ticks)
     obs.append(CH(name="two_suspensions", harness="c10.two_suspensions",
                   sym=dict(ramA=I(1, 70), ramB=I(1, 70), cpuA=I(1, 3), cpuB=I(1, 3), dA=I(1, 2), dB=I(1, 2)), fixed=dict(K=8), timeout=900))
+    obs.append(CH(name="two_suspensions_one_pipeline", harness="c10.two_suspensions",
+                  sym=dict(ramA=I(1, 70), ramB=I(1, 70), dA=I(1, 2), dB=I(1, 2)), fixed=dict(K=8, cpuA=1, cpuB=2, same_pipeline=True), timeout=900))
     obs.append(twin("two_same_tick", "c10.two_suspensions", dict(ramA=I(1, 70), ramB=I(1, 70), dA=I(1, 2), dB=I(1, 2)), dict(cpuA=1, cpuB=2, K=8), "same_tick"))
     tsym = dict(ram=I(1, 45), s=I(0, 6), d0=I(1, 2), d1=I(1, 2))
     tfix = dict(n=2, s2=-1, dB=3, rB=7, K=K, d2=1)
